@@ -91,6 +91,11 @@ def image_case(draw):
     return c
 
 
+NUMS = ["-1", "0", "1", "-2", "2", "9", "10", "17", "18", "39", "40", "79", "80", "-0", "+1", " 1", "1 ", "0x1", "1e1", "",
+        "4294967295", "4294967296", "-4294967296", "2147483647", "-2147483648", "9223372036854775807",
+        "-9223372036854775808", "99999999999999999999", "0A", "2B"]
+
+
 @st.composite
 def cli_case(draw):
     words = []
@@ -101,7 +106,15 @@ def cli_case(draw):
              "opus", "0", "1", "2", "3", "$", "#.*"] + HOSTILE_ARGS
     for _ in range(n):
         words.append(draw(st.sampled_from(vocab)))
+    num = st.sampled_from(NUMS)
     tail = draw(st.sampled_from([[], ["cat"], ["info", "*"], ["dump-sector", "0", "0", "0"], ["help", "cat"],
+                                 ["dump-sector", draw(num), draw(num), draw(num)],
+                                 ["dump-sector", "0", draw(num), draw(num)],
+                                 ["dump-sector", "0", draw(num), draw(num)],
+                                 ["dump-sector", "0", "0", draw(num)], ["dump-sector", "0", draw(num), "0"],
+                                 ["cat", draw(num)], ["free", draw(num)], ["space", draw(num), draw(num)],
+                                 ["show-titles", draw(num), draw(num)], ["sector-map", draw(num)],
+                                 ["--drive", draw(num), "cat"] if False else ["cat", draw(num)],
                                  ["type", draw(st.sampled_from(HOSTILE_ARGS))],
                                  ["dump-sector", draw(st.sampled_from(HOSTILE_ARGS)), "0", "0"],
                                  ["dump-sector", "0", draw(st.sampled_from(HOSTILE_ARGS)), draw(st.sampled_from(HOSTILE_ARGS))],
@@ -110,6 +123,7 @@ def cli_case(draw):
                                  ["sector-map", draw(st.sampled_from(HOSTILE_ARGS))], ["info", draw(st.sampled_from(HOSTILE_ARGS))],
                                  ["help", draw(st.sampled_from(HOSTILE_ARGS))]]))
     pre = draw(st.sampled_from([["--file", "IMG"], ["--file", "IMG"], [], ["--file", "IMG", "--file", "IMG2"],
+                                ["--drive", draw(num), "--file", "IMG"], ["--file", "IMG", "--drive", draw(num)],
                                 ["--drive", draw(st.sampled_from(HOSTILE_ARGS)), "--file", "IMG"],
                                 ["--dir", draw(st.sampled_from(HOSTILE_ARGS)), "--file", "IMG"],
                                 ["--ui", draw(st.sampled_from(HOSTILE_ARGS + ["acorn"])), "--file", "IMG"]]))
